@@ -230,8 +230,48 @@ def line_noise(r, src):
     return s
 
 
+HINT_POOL = ["Int", "String", "Bool", "()", "(Int,)", "(Int, String)", "List<Int>", "List<()>", "Option<(Int, Bool)>", "Fun<(), Unit>",
+             "Fun<(Int), ()>", "Fun<(Int, String), Bool>", "Dict<Int>", "Option<Path>", "Result<Int, String>", "((), ())", "T"]
+
+
+def rand_signature(rng):
+    """A fun/method definition whose one-line signature has a length around the wrapping limit (100), with every kind of
+    type hint (also the empty and the one-element tuple) and tight or spaced annotations."""
+    target = rng.randrange(96, 106) if rng.random() < 0.6 else rng.randrange(60, 150)
+    sep = rng.choice([": ", ": ", ":"])
+    kind = rng.choice(["fun", "fun", "public fun", "method"])
+    generic = rng.random() < 0.3
+    params = []
+    if kind == "method":
+        params.append("this%sPoint" % sep)
+    ret = rng.choice(HINT_POOL + ["Unit", None])
+    name = "sig"
+
+    def line():
+        tp = "<T>" if generic else ""
+        r = "" if ret is None else "%s%s" % (sep.rstrip() + (" " if sep.endswith(" ") else ""), ret)
+        return "%s %s%s(%s)%s {" % (kind, name, tp, ", ".join(params), r)
+    i = 0
+    while len(line()) < target - 12 and i < 12:
+        i += 1
+        h = rng.choice(HINT_POOL)
+        if h == "T" and not generic:
+            h = "Int"
+        params.append("p%d%s%s" % (i, sep, h) if rng.random() < 0.85 else "q%d" % i)
+    pad = max(0, target - len(line()))
+    name = "sig" + "x" * pad
+    body = rng.choice([" 1 }", "\n  1\n}", " }", "\n  let z%sInt = 1\n  z\n}" % sep])
+    return line() + body + "\n"
+
+
 def base_programs(rng, n_core, n_tmpl):
     progs = []
+    for _ in range(max(6, n_tmpl // 3)):
+        k = rng.randrange(1, 3)
+        parts = [rand_signature(rng) for _ in range(k)]
+        if rng.random() < 0.5:
+            parts.insert(rng.randrange(len(parts) + 1), rng.choice(TEMPLATES))
+        progs.append("".join(parts))
     for size in (3, 6, 10):
         progs += genprog.programs(rng, n_core // 3, size=size, annotate=rng.random() < 0.5)
     for _ in range(n_tmpl):
